@@ -88,10 +88,11 @@ def make_case(rng, i):
     two_spellings = (not upper) and rng.random() < 0.5
     if two_spellings:
         feats.add("two_spellings")
+    no_replacement = upper and i % 8 == 7          # the upper-case list used as it is, without a replacement table
     required_late = bool(required) and i % 3 == 1
     if required_late:
         feats.add("required_declared_late")
-    return {"names": names, "reactions": reacs, "required": required, "upper": upper, "features": sorted(feats), "two_spellings": two_spellings, "required_late": required_late,
+    return {"names": names, "reactions": reacs, "required": required, "upper": upper, "features": sorted(feats), "two_spellings": two_spellings, "required_late": required_late, "no_replacement": no_replacement,
             "cli": True, "enzo": i % 2 == 0}
 
 
@@ -141,7 +142,8 @@ def run_case(case, ctx):
         obs["tag_two_grain_groups"] += 0
     if case["upper"]:
         kw = dict(elements=list(UPPER_EL), pseudo_elements=list(UPPER_PS))
-        Species._replacement = dict(UPPER_RP)          # as `naunet render` installs them, before any species is created
+        if not case.get("no_replacement"):
+            Species._replacement = dict(UPPER_RP)          # as `naunet render` installs them, before any species is created
         Species.set_known_elements(list(UPPER_EL))
         Species.set_known_pseudoelements(list(UPPER_PS))
     if case.get("isotopes"):
@@ -266,6 +268,24 @@ def run_case(case, ctx):
             viol.append(violation("python_constants_not_importable", f"{be}: constant_indexes.py: {e.msg} at line {e.lineno}: {e.text.strip() if e.text else ''}", **w))
         except Exception as e:
             viol.append(violation("python_constants_not_importable", f"{be}: constant_indexes.py: {type(e).__name__}: {e}"))
+    # ---- project summary through the API: another network (its own lists) is constructed in between, then this one is exported; summary,
+    #      macros and Python constants of the exported project agree
+    try:
+        import tomlkit
+        other = Network(elements=list(chem.DEFAULT_ELEMENTS), pseudo_elements=["CR", "CRP", "Photon", "PHOTON", "CRPHOT", "o", "p", "m"])
+        _ = other.species
+        net.export("exported", solver="cvode", method="dense", device="cpu", prefix=str(work), overwrite=True)
+        ed = work / "exported"
+        summ = tomlkit.loads((ed / "naunet_config.toml").read_text())["summary"]
+        macc = lab.parse_macros(ed)
+        mnames_e = [ln.split()[1][4:] for ln in macc["raw_idx_lines"] if not ln.split()[1].startswith("IDX_ELEM_") and ln.split()[1] != "IDX_TGAS"]
+        obs["exported_summaries_checked"] += 1
+        if list(summ["list_of_species_alias"]) != mnames_e:
+            viol.append(violation("summary_disagrees", f"[summary] of the exported project lists aliases {list(summ['list_of_species_alias'])[:8]}, its macros "
+                                  f"{mnames_e[:8]} (another network was constructed before the export)"))
+    except Exception as e:
+        if not bad:
+            viol.append(violation("generator_raised", f"export: {type(e).__name__}: {e}", trace=traceback.format_exc()[-600:]))
     # ---- project summary through the CLI
     if case["cli"] and not case["two_spellings"]:
         d = work / "cli"
@@ -278,7 +298,8 @@ def run_case(case, ctx):
             opts.update({"elements": ", ".join(list(chem.DEFAULT_ELEMENTS) + list(case["isotopes"])),
                          "pseudo-elements": ", ".join(["CR", "CRP", "XRAY", "Photon", "PHOTON", "CRPHOT", "o", "p", "m"])})
         if case["upper"]:
-            opts.update({"elements": ", ".join(UPPER_EL), "pseudo-elements": ", ".join(UPPER_PS), "element-replacement": ", ".join(f"{k}:{v}" for k, v in UPPER_RP.items())})
+            opts.update({"elements": ", ".join(UPPER_EL), "pseudo-elements": ", ".join(UPPER_PS),
+                         "element-replacement": "" if case.get("no_replacement") else ", ".join(f"{k}:{v}" for k, v in UPPER_RP.items())})
         try:
             Species.reset()
             rc, out, err = clihelp.run_init(d, opts)
